@@ -47,13 +47,17 @@ KIND_AID = {"cam": 36, "vam": 638, "denm": 37, "other": 99}
 
 
 class World:
-    def __init__(self, rng, n, apps=None, groups=None, vals=None, ssps=None, monitors=()):
+    def __init__(self, rng, n, apps=None, groups=None, vals=None, ssps=None, monitors=(), two_aa=None):
         """`monitors`: stations that only LISTEN (a VerifyService built without a SignService -- the constructor default:
         roadside monitor, logger, receive-only unit): they hold no ticket and never send.
         `vals[k][i]` = [start - now, unit, count] and `ssps[k][i]` = PsidSsp entries (sc.psid_ssp_json) of ticket i of
         station k when a recorded world is rebuilt; otherwise drawn from `rng`: half of the tickets get a validity period
         over a random IEEE 1609.2 Duration unit placed so that the scenario runs near its start / middle / END
-        (sc.validity_around), and appPermissions entries with and without an ssp component"""
+        (sc.validity_around), and appPermissions entries with and without an ssp component.
+        `two_aa`: the deployment has TWO authorization authorities under the one root (None: one AA).  True: drawn from
+        `rng` - every ticket is issued by one of them, every station knows the AA(s) of its own tickets and possibly the
+        other one; at least one station knows both, one holds a ticket of the second AA, one knows the first AA only.
+        A recorded world passes {"issuer": [[AA index per ticket] per station], "known": [[AA indexes] per station]}"""
         p = self.pki = sc.PKI()
         now = self.now = sc.its_now_s(T0)
         live = dict(start=now - 1000, duration=("hours", 100))
@@ -64,6 +68,24 @@ class World:
         else:
             issue = [sc.perm_all(1) if kind == "all" else sc.perm_explicit(ps, 1) for kind, ps in groups]
         self.aa = p.issue(self.root, "aa", issue=issue, **live)
+        self.aas = [self.aa] + ([p.issue(self.root, "aa2", issue=issue, **live)] if two_aa else [])
+        self.issuer_ix, self.known_aas = None, [[0] for _ in range(n)]
+        if isinstance(two_aa, dict):
+            self.issuer_ix, self.known_aas = two_aa["issuer"], two_aa["known"]
+        elif two_aa:
+            # roles (shuffled over the stations): one knows both AAs and holds a ticket of the first, one holds a ticket of
+            # the second AA, one knows the first AA only; the others are drawn
+            order = [k for k in range(n) if k not in monitors]
+            rng.shuffle(order)
+            role = {k: i for i, k in enumerate(order)}
+            self.issuer_of_station, self.known_aas = {}, []
+            for k in range(n):
+                i = role.get(k, 99)
+                tix = 0 if i in (0, 2) else 1 if i == 1 else rng.randrange(2)
+                other = True if i == 0 else False if i == 2 else rng.random() < 0.5
+                self.issuer_of_station[k] = tix
+                self.known_aas.append(sorted({tix} | ({1 - tix} if other else set())) if k not in monitors
+                                      else rng.choice([[0], [0, 1]]))
         # a station holds ONE ticket for everything it sends, or SEPARATE tickets per service (CAM / VAM / DENM):
         # `tickets[k]` in the order they are installed (the signer takes the first one covering the ITS-AID)
         self.tickets = []
@@ -88,8 +110,20 @@ class World:
                     st_, du = sc.validity_around(rng, now)
                     val = dict(start=st_, duration=du)
                 entries = sc.psid_ssp_from_json(ssps[k][i]) if ssps is not None else [sc.psid_ssp(x, rng) for x in app]
-                row.append(p.issue(self.aa, app=entries, **val))
+                if isinstance(two_aa, dict):
+                    ix = self.issuer_ix[k][i]
+                elif two_aa:
+                    ix = self.issuer_of_station[k]
+                else:
+                    ix = 0
+                row.append(p.issue(self.aas[ix], app=entries, **val))
             self.tickets.append(row)
+        if two_aa and not isinstance(two_aa, dict):
+            self.issuer_ix = [[self.issuer_of_station[k]] * len(ts) for k, ts in enumerate(self.tickets)]
+        self.two_aa = {"issuer": self.issuer_ix, "known": self.known_aas} if two_aa else None
+        # ticket HashedId8 -> index of the AA that issued it
+        self.aa_ix_of = {sc.hid8(a.certificate): (self.issuer_ix[k][i] if two_aa else 0)
+                         for k, ts in enumerate(self.tickets) for i, a in enumerate(ts)}
         self.ats = [t[0] if t else None for t in self.tickets]
         self.groups = [(g["subjectPermissions"][0], [e["psid"] for e in (g["subjectPermissions"][1] or [])])
                        for g in self.aa.certificate["toBeSigned"]["certIssuePermissions"]]
@@ -100,8 +134,15 @@ class World:
         self.ssps = [[sc.psid_ssp_json(a.certificate["toBeSigned"]["appPermissions"]) for a in ts] for ts in self.tickets]
         self.A = sc.Abs()
         self.A.register_backend(p.backend)
-        for c in [self.root, self.aa] + [a for ts in self.tickets for a in ts]:
+        for c in [self.root] + self.aas + [a for ts in self.tickets for a in ts]:
             self.A.cert(c.certificate)
+
+    def aas_of(self, k):
+        """the AA certificates station k is configured with"""
+        return [self.aas[i] for i in self.known_aas[k]]
+
+    def issuer_of(self, ticket):
+        return self.aas[self.aa_ix_of[sc.hid8(ticket.certificate)]]
 
     def app_of(self, k):
         """all ITS-AIDs station k holds a ticket for"""
@@ -185,24 +226,29 @@ class Sim:
         self.pending = {}               # (R, ticket of S) -> "await-R-cam" | "await-S-cam"
         self.events = []                # replayable log
         self.cur_area = False           # destination area of the emission being delivered (False: single-hop broadcast)
+        self.line = False               # topology: False = everybody hears everybody; True = station k hears k-1 and k+1 only
 
     def joined(self, k):
         return self.st[k] is not None
 
     def do_join(self, k):
         w = self.w
-        pre = [a for j in self.pre[k] for a in w.tickets[j]]
+        # pre-loaded peer tickets: only those whose AA the station is configured with (a library admits no others)
+        pre = [a for j in self.pre[k] for a in w.tickets[j] if w.aa_ix_of[sc.hid8(a.certificate)] in w.known_aas[k]]
         mon = k in w.monitors
-        s = sc.RouterStation(w.pki.backend, k + 1, [w.root], [w.aa], pre, own=w.tickets[k], has_sign=not mon,
+        aas = w.aas_of(k)
+        s = sc.RouterStation(w.pki.backend, k + 1, [w.root], aas, pre, own=w.tickets[k], has_sign=not mon,
                              lat=LAT0 + STEP * k, lon=LON0 + STEP * k)
         self.st[k] = s
-        self.auth[k] = AuthOracle([w.root], [w.aa], pre)
+        self.auth[k] = AuthOracle([w.root], aas, pre)
         self.knows[k] = {sc.hid8(a.certificate) for a in pre}
-        ls = sc.new_station_lines(w.A, k + 1, [w.root], [w.aa], pre, has_sign=not mon)
+        ls = sc.new_station_lines(w.A, k + 1, [w.root], aas, pre, has_sign=not mon)
+        if w.two_aa:
+            self.ctx.cover(f"join_knowing_{len(aas)}_of_2_authorization_authorities")
         if mon:
             self.ctx.cover("join_receive_only_station")
         for a in w.tickets[k]:
-            ls.append(f"addown {k + 1} {w.A.cert(a.certificate)} {w.A.cert(w.aa.certificate)}")
+            ls.append(f"addown {k + 1} {w.A.cert(a.certificate)} {w.A.cert(w.issuer_of(a).certificate)}")
         self.lines += ls
         self.reals += [None] * (len(ls) - 1) + ["ok " + w.A.dump_store(s.lib)]
         self.ctx.cover(f"join_preloaded_{len(pre)}")
@@ -211,6 +257,7 @@ class Sim:
     def case(self):
         return {"kind": "scenario", "id": self.sid, "n": self.n, "join": self.join, "pre": self.pre, "apps": self.w.apps, "groups": self.w.groups,
                 "vals": self.w.vals, "ssps": self.w.ssps, "monitors": self.w.monitors, "join_all": getattr(self, "join_all", False),
+                **({"two_aa": self.w.two_aa} if self.w.two_aa else {}), **({"line": True} if self.line else {}),
                 "events": list(self.events)}
 
     def pick_area(self, k, kind):
@@ -260,7 +307,8 @@ class Sim:
         multi = len(w.tickets[k]) > 1
         fid = "C05-F2" if multi else None       # a station signing with several tickets: region of finding C05-F2
         try:
-            frames = s.send(kind, payload, now, area=tuple(area) if area is not None else None, transport=transport)
+            frames = s.send(kind, payload, now, area=tuple(area) if area is not None else None, transport=transport,
+                            max_hop_limit=5 if self.line and kind in ("denm", "other") else None)
             err = None
         except Exception as e:  # noqa: BLE001
             frames, err = [], e
@@ -335,14 +383,20 @@ class Sim:
         ctx.nontrivial((kind, carries, "inlineP2pcdRequest" in hi, "requestedCertificate" in hi, multi))
         return frame, sd, plain, carries, tid
 
-    def deliver(self, k, kind, payload, frame, sd, plain, carries, h8):
-        """frame of sender k (signed with its ticket `h8`) to every joined station"""
+    def deliver(self, k, kind, payload, frame, sd, plain, carries, h8, receivers=None, via=None):
+        """frame of sender k (signed with its ticket `h8`) to every joined station in radio range (`receivers`: to these
+        only; `via`: the frame is the re-broadcast of k's packet by forwarder `via`)"""
         ctx, w, A = self.ctx, self.w, self.w.A
         fid = "C05-F2" if len(w.tickets[k]) > 1 else None
         hi = sd["tbsData"]["headerInfo"]
-        for r in range(self.n):
-            if r == k or not self.joined(r):
+        if receivers is None:
+            receivers = [k - 1, k + 1] if self.line else range(self.n)
+        how = f", re-broadcast by forwarder {via} on its CBF timer thread" if via is not None else ""
+        got = []
+        for r in receivers:
+            if r == k or r < 0 or r >= self.n or not self.joined(r):
                 continue
+            got.append(r)
             R = self.st[r]
             R.set_position(self.clock.ms)
             tok = sc.frame_tokens(A, frame)
@@ -360,11 +414,22 @@ class Sim:
             ctx.cover("rx_" + (conf.report.name if conf is not None else out))
             accepted = out == "pass" and bytes(gate[0]) == bytes(plain)
             known = h8 in self.knows[r]
+            if w.aa_ix_of.get(h8, 0) not in w.known_aas[r] and not accepted:
+                # the receiver was not configured with the AA of the sender's ticket: region of known finding C05-KF1 (outside
+                # "know only root and AA"); no acceptance claim, the model comparison covers the bookkeeping
+                ctx.cover("rx_sender_aa_not_configured_kf1_region")
+                continue
             # ---- oracle: acceptance
             if carries or known:
                 if not accepted:
-                    ctx.violation(f"{kind} of station {k} ({'carrying its certificate' if carries else 'ticket known to the receiver'}) "
-                                  f"not accepted by station {r}: {real.split()[0]}", self.case())
+                    extra = ""
+                    if "requestedCertificate" in hi:
+                        extra = " [the message answers a peer's request: headerInfo.requestedCertificate present]"
+                        ctx.cover("rx_requested_certificate_not_accepted")
+                    ctx.violation(f"{kind} of station {k} ({'carrying its certificate' if carries else 'ticket known to the receiver'}"
+                                  f"{how}) not accepted by station {r}: {real.split()[0]}{extra}", self.case())
+                elif "requestedCertificate" in hi:
+                    ctx.cover("rx_requested_certificate_accepted")
                 if (r, h8) in self.pending and self.pending[(r, h8)] == "await-S-cam" and kind in ("cam", "vam"):
                     ctx.cover("p2pcd_completed")
                 self.pending.pop((r, h8), None)
@@ -372,7 +437,7 @@ class Sim:
                 if (r, h8) in self.pending and self.pending[(r, h8)] == "await-S-cam" and kind in ("cam", "vam") and not accepted:
                     ctx.violation(f"P2PCD: station {r} asked for the ticket of station {k}, whose next {kind} signed with it still "
                                   f"is not accepted ({real.split()[0]})", self.case(), fid)
-                if not accepted and (r, h8) not in self.pending:
+                if not accepted and (r, h8) not in self.pending and via is None:
                     self.pending[(r, h8)] = "await-R-cam"
                     ctx.cover("p2pcd_started")
             if accepted:
@@ -394,15 +459,62 @@ class Sim:
         # the sender's CAM moves pending requests of the sender (as receiver R = k) forward
         if kind in ("cam", "vam"):
             for (r, t8), v in list(self.pending.items()):
-                if r == k and v == "await-R-cam" and self.joined(w.owner[t8]):
+                if r == k and v == "await-R-cam" and self.joined(w.owner[t8]) and (not self.line or abs(w.owner[t8] - k) == 1):
                     self.pending[(r, t8)] = "await-S-cam"
+        return got
+
+    def relay(self, k, kind, payload, frame, sd, plain, carries, h8, got):
+        """line topology: the stations that received k's GeoBroadcast buffered it for contention-based forwarding; nobody
+        else re-broadcasts (the next hop has not heard it), so their CBF timers EXPIRE - on the timer's own thread - and
+        the re-broadcast travels one hop further away from the source.  Judged: the re-broadcast frame carries the security
+        envelope of the original unchanged, and the next station accepts it like a direct neighbour would"""
+        ctx = self.ctx
+        hop = [(r, r + (1 if r > k else -1)) for r in got]
+        while hop:
+            nxt = []
+            for f, to in hop:
+                F = self.st[f]
+                F.ll.take()
+                timers = sc.FireTimer.take(F.router)
+                for t in timers:
+                    exc = t.fire()
+                    ctx.evals()
+                    if exc is not None:
+                        ctx.violation(f"{kind} of station {k}: CBF timer of forwarder {f} expired and the callback raised "
+                                      f"{type(exc).__name__}: the signed packet is lost with the timer thread", self.case())
+                sent = F.ll.take()
+                if not timers:
+                    ctx.cover("relay_forwarder_buffered_nothing")
+                    continue
+                ctx.cover(f"relay_cbf_timer_fired_{kind}")
+                for fr in sent:
+                    if fr[0] & 0x0F != 2 or bytes(fr[4:]) != bytes(frame[4:]):
+                        ctx.violation(f"{kind} of station {k} received SECURED by forwarder {f} (inside the area, CBF) left it on the "
+                                      f"timer thread {'as a PLAIN packet (Basic Header NH = ' + str(fr[0] & 0x0F) + ')' if fr[0] & 0x0F != 2 else 'with a different secured message'}"
+                                      ": signature and certificate of the originator are gone", self.case())
+                    if 0 <= to < self.n and self.joined(to):
+                        g2 = self.deliver(k, kind, payload, fr, sd, plain, carries, h8, receivers=[to], via=f)
+                        ctx.cover("relay_two_hop_delivery")
+                        nxt += [(r, r + (1 if r > k else -1)) for r in g2]
+            hop = nxt
+
+
+def step(sim, k, kind, payload, area=None, transport=None):
+    """one emission of station k, delivered to everybody in range (line topology: and carried on by the CBF forwarders)"""
+    res = sim.emit(k, kind, payload, area, transport)
+    if res is not None:
+        got = sim.deliver(k, kind, payload, *res)
+        if sim.line and kind in ("denm", "other") and (area is not None or kind == "denm"):
+            sim.relay(k, kind, payload, *res, got)
+    sc.FireTimer.armed.clear()
+    return res
 
 
 def honest_world(ctx, w, sim):
     """the tickets were obtained from the issuing API with ITS-AIDs inside the UNION of the AA's permission groups:
     they must come back signed and verifiable (independent chain checker + Certificate.verify)"""
     roots = {sc.hid8(w.root.certificate): w.root.certificate}
-    cas = {sc.hid8(w.aa.certificate): w.aa.certificate}
+    cas = {sc.hid8(a.certificate): a.certificate for a in w.aas}
     for k, ts in enumerate(w.tickets):
         for at, ap in zip(ts, w.apps[k]):
             ok, why = sc.chain_ok(at.certificate, roots, cas)
@@ -431,9 +543,7 @@ def run_scenario(ctx, w, clock, n, n_events, sid, script=None):
         kinds = [kd for kd, aid in KIND_AID.items() if aid in app]
         kind = rng.choice(kinds + [kd for kd in kinds if kd in ("cam", "vam")] * 2 + (["other", "vam"] if rng.random() < 0.05 else []))
         payload = bytes(rng.randrange(256) for _ in range(rng.choice([1, 5, 30, 200])))
-        res = sim.emit(k, kind, payload, *sim.pick_area(k, kind))
-        if res is not None:
-            sim.deliver(k, kind, payload, *res)
+        step(sim, k, kind, payload, *sim.pick_area(k, kind))
     return sim
 
 
@@ -474,10 +584,69 @@ def run_periodic(ctx, w, clock, n, sid, horizon_ms=None, max_events=70):
             if not sim.joined(j) and sim.join[j] <= t:
                 sim.do_join(j)
         payload = bytes(rng.randrange(256) for _ in range(rng.choice([1, 5, 30])))
-        res = sim.emit(k, kind, payload, *sim.pick_area(k, kind))
-        if res is not None:
-            sim.deliver(k, kind, payload, *res)
+        step(sim, k, kind, payload, *sim.pick_area(k, kind))
     ctx.cover("periodic_scenarios")
+    return sim
+
+
+def run_line(ctx, clock, sid):
+    """MULTI-HOP reach of a signed message: 3-4 stations in a LINE (each hears its two neighbours only), everybody inside
+    the destination area, contention-based forwarding (the MIB default).  A signed DENM / generic GeoBroadcast reaches the
+    stations two and three hops away only through the re-broadcast of the forwarders, whose CBF timer expires on a thread of
+    its own.  CAMs first (neighbours know each other), then GeoBroadcasts of random stations mixed with CAMs."""
+    rng = ctx.rng
+    n = rng.choice([3, 3, 4])
+    w = World(rng, n, apps=[rng.choice([[36, 37, 638, 99], [36, 37, 99], [36, 37]]) for _ in range(n)])
+    sim = Sim(ctx, w, clock, n, sid)
+    sim.join, sim.pre, sim.line, sim.join_all = [0] * n, [[] for _ in range(n)], True, True
+    honest_world(ctx, w, sim)
+    t = 10_000
+    clock.ms = T0 + t
+    for k in range(n):
+        sim.do_join(k)
+    plan = [(k, "cam") for k in range(n)]
+    for _ in range(rng.randrange(3, 6)):
+        k = rng.randrange(n)
+        plan.append((k, rng.choice(["denm", "denm", "other", "cam"])))
+    for k, kind in plan:
+        t += rng.choice([20, 100, 300, 1001])
+        clock.ms = T0 + t
+        payload = bytes(rng.randrange(256) for _ in range(rng.choice([1, 5, 30])))
+        area = None
+        if kind in ("denm", "other") and (kind == "other" or rng.random() < 0.5):
+            # everybody inside: a circle of 300 m ... 1.5 km around the sender or around a peer
+            j = rng.randrange(n)
+            area = [LAT0 + STEP * j, LON0 + STEP * j, rng.choice([300, 500, 1500]), 0]
+        step(sim, k, kind, payload, area, "gbc" if area is not None else None)
+    ctx.cover("line_topology_scenarios")
+    return sim
+
+
+def run_crowd(ctx, clock, sid, n_senders=None):
+    """ANY NUMBER of stations: 9-12 running stations, all in the digest phase of their 1-s certificate timers, and one LATE
+    JOINER that hears them all.  Its next CAM has to ask for every ticket it could not resolve, and each of the running
+    stations' next CAM (still inside its own 1-s period, so only the request makes it carry the certificate) must be
+    accepted: 'within two further message exchanges'."""
+    rng = ctx.rng
+    ns = n_senders or rng.randrange(9, 13)
+    n = ns + 1
+    w = World(rng, n, apps=[[36, 37]] * n, groups=[("explicit", [36, 37, 638, 99])], vals=[[[-1000, "hours", 100]]] * n)
+    sim = Sim(ctx, w, clock, n, sid)
+    late = rng.choice([250, 280])
+    sim.join, sim.pre = [0] * ns + [late], [[] for _ in range(n)]
+    honest_world(ctx, w, sim)
+    phase = [rng.randrange(1, 100) for _ in range(ns)]
+    ev = [(phase[k] + 300 * i, k) for k in range(ns) for i in range(3)] + [(rng.randrange(420, 580), ns)]
+    last = 0
+    for t, k in sorted(ev):
+        t = max(t, last + 1)
+        last = t
+        clock.ms = T0 + 10_000 + t
+        for j in range(n):
+            if not sim.joined(j) and sim.join[j] <= t:
+                sim.do_join(j)
+        step(sim, k, "cam", bytes(rng.randrange(256) for _ in range(3)))
+    ctx.cover(f"crowd_late_joiner_hears_{ns}_unknown_tickets")
     return sim
 
 
@@ -542,7 +711,7 @@ def pick_monitors(rng, n):
     return sorted(rng.sample(range(1, n), 1 if n < 4 or rng.random() < 0.7 else 2))
 
 
-def multi_ticket_world(rng, n):
+def multi_ticket_world(rng, n, two_aa=None):
     """at least one station signs with separate tickets per service (the dense-traffic scenarios are about them)"""
     apps = [None] * n
     mon = pick_monitors(rng, n)
@@ -551,20 +720,32 @@ def multi_ticket_world(rng, n):
     for k in range(n):
         if apps[k] is None:
             apps[k] = rng.choice([[36, 37, 638, 99], [36, 37, 99], [36, 37], [638, 37, 99]])
-    return World(rng, n, apps=apps, monitors=mon)
+    return World(rng, n, apps=apps, monitors=mon, two_aa=two_aa)
 
 
-def check_scenarios(ctx, clock, n_scen, tag, extra=(), n_periodic=0, edges=False):
+def check_scenarios(ctx, clock, n_scen, tag, extra=(), n_periodic=0, edges=False, n_line=0, n_crowd=0, n_two_aa=0):
     sims = list(extra)
     if edges:
         sims += run_validity_edges(ctx, clock, f"{tag}edge")
+    for i in range(n_line):
+        sims.append(run_line(ctx, clock, f"{tag}line{i}"))
+    for i in range(n_crowd):
+        sims.append(run_crowd(ctx, clock, f"{tag}crowd{i}"))
+    for i in range(n_two_aa):
+        # two authorization authorities under the one root, dense periodic traffic: requests for an AA certificate are
+        # made, answered (requestedCertificate) and overheard by third parties
+        n = ctx.rng.choice([3, 4, 4, 5])
+        w = (multi_ticket_world(ctx.rng, n, two_aa=True) if ctx.rng.random() < 0.3
+             else World(ctx.rng, n, monitors=pick_monitors(ctx.rng, n), two_aa=True))
+        sims.append(run_periodic(ctx, w, clock, n, f"{tag}aa{i}", max_events=50))
+        ctx.cover("two_authorization_authority_worlds")
     for i in range(n_periodic):
         n = ctx.rng.choice([2, 2, 3, 3, 4])
         w = multi_ticket_world(ctx.rng, n) if ctx.rng.random() < 0.7 else World(ctx.rng, n, monitors=pick_monitors(ctx.rng, n))
         sims.append(run_periodic(ctx, w, clock, n, f"{tag}p{i}"))
     for i in range(n_scen):
         n = ctx.rng.choice([2, 2, 3, 3, 4, 5])
-        w = World(ctx.rng, n, monitors=pick_monitors(ctx.rng, n))
+        w = World(ctx.rng, n, monitors=pick_monitors(ctx.rng, n), two_aa=(n >= 3 and ctx.rng.random() < 0.15) or None)
         sims.append(run_scenario(ctx, w, clock, n, ctx.rng.randrange(12, 40), f"{tag}{i}"))
     compare(ctx, sims)
     if sims:
@@ -608,7 +789,7 @@ def run(ctx):
                          "broadcast medium, inter-emission gaps around the 1-s timer, join times 0..4 s, 25 % pre-loaded peer tickets; "
                          "every emission and every reception compared with the model and judged by the profile / acceptance oracle. "
                          "distinct_nontrivial counts distinct (kind, signer, P2PCD field) emission classes")
-    router_mod.Timer = sc.NoTimer
+    router_mod.Timer = sc.FireTimer
     try:
         with rs.VClock(T0) as clock, rs.quiet():
             recorded = []
@@ -621,7 +802,8 @@ def run(ctx):
                         ctx.violation("receiver trusting only the root never accepts a station whose AA it lacks: " + desc, c, "C05-KF1")
                 elif c.get("kind") == "scenario":
                     recorded.append(run_recorded(ctx, clock, c, f"corpus:{name}"))
-            check_scenarios(ctx, clock, ctx.scale(20, 600), "s", extra=recorded, n_periodic=ctx.scale(5, 120), edges=True)
+            check_scenarios(ctx, clock, ctx.scale(20, 600), "s", extra=recorded, n_periodic=ctx.scale(5, 120), edges=True,
+                            n_line=ctx.scale(2, 40), n_crowd=ctx.scale(1, 6), n_two_aa=ctx.scale(2, 40))
     finally:
         router_mod.Timer = threading.Timer
 
@@ -629,10 +811,11 @@ def run(ctx):
 def search(ctx):
     ok = ctx.model_ok
     ctx.model_ok = False
-    router_mod.Timer = sc.NoTimer
+    router_mod.Timer = sc.FireTimer
     try:
         with rs.VClock(T0) as clock, rs.quiet():
-            check_scenarios(ctx, clock, ctx.scale(60, 400), "x", n_periodic=ctx.scale(24, 200), edges=True)
+            check_scenarios(ctx, clock, ctx.scale(60, 400), "x", n_periodic=ctx.scale(24, 200), edges=True,
+                            n_line=ctx.scale(4, 40), n_crowd=ctx.scale(1, 6), n_two_aa=ctx.scale(6, 60))
     finally:
         router_mod.Timer = threading.Timer
         ctx.model_ok = ok
@@ -644,9 +827,10 @@ def run_recorded(ctx, clock, case, sid):
     import random
     rng = random.Random(1)
     n = case["n"]
-    w = World(rng, n, case.get("apps"), case.get("groups"), case.get("vals"), case.get("ssps"), case.get("monitors", ()))
+    w = World(rng, n, case.get("apps"), case.get("groups"), case.get("vals"), case.get("ssps"), case.get("monitors", ()),
+              two_aa=case.get("two_aa"))
     sim = Sim(ctx, w, clock, n, sid)
-    sim.join, sim.pre = case["join"], case["pre"]
+    sim.join, sim.pre, sim.line = case["join"], case["pre"], bool(case.get("line"))
     honest_world(ctx, w, sim)
     if case.get("join_all"):
         sim.join_all = True
@@ -661,9 +845,7 @@ def run_recorded(ctx, clock, case, sid):
                 sim.do_join(j)
         if not sim.joined(k):
             sim.do_join(k)
-        res = sim.emit(k, kind, bytes(plen), *(geo if geo else (None, None)))
-        if res is not None:
-            sim.deliver(k, kind, bytes(plen), *res)
+        step(sim, k, kind, bytes(plen), *(geo if geo else (None, None)))
     return sim
 
 
@@ -675,7 +857,7 @@ def replay(ctx, obj):
         print(desc)
         return rep
     if case.get("kind") == "scenario":
-        router_mod.Timer = sc.NoTimer
+        router_mod.Timer = sc.FireTimer
         try:
             with rs.VClock(T0) as clock, rs.quiet():
                 ctx.model_ok = False
